@@ -1,5 +1,5 @@
 (* C03 — eviction is least-recently-used first, minimal, and spares the new entry. *)
-Require Import LruV.A.SpecA.
+Require Import LruV.A.SpecA LruV.A.InvA LruV.A.MonitorsA LruV.A.MonC03.
 Require Import LruV.B.StepB LruV.B.RefineLemmas LruV.B.OpsProps LruV.B.CorollariesB LruV.A.SpecA.
 
 (* `minimal_prefix l evd rest target` (A/SpecA.v): l = evd ++ rest, rest fits the target, evd is the
@@ -139,9 +139,29 @@ Theorem C03_pointer_level : forall g c target, RIg g -> NoDup (kids (absG g)) ->
     (forall b, In b (glist g') -> entry_at (gh g') b = entry_at (gh g) b).
 Proof. exact eject_pointer_level. Qed.
 
+(* the monitor evaluated on the implementation after every step — minimality of the eviction in the TRUE sizes of the
+   entries (A/MonitorsA.v c03_mon: when an insertion, a mutate that keeps its entry or a lowered limit made entries
+   leave, the last of them to leave could not have stayed: with it, the true sizes of what is held afterwards exceed the
+   limit) — holds for every step of the model from every state satisfying the invariant, whatever the oracle *)
+Theorem C03_monitor_sound : forall E VS, 0 < E -> VS <= E -> forall s p o s' out evs,
+  Inv E s -> wf_op E s p -> stepA E VS fixed s p o = Some (s', out, evs) -> c03_mon E s p s' = true.
+Proof. exact c03_mon_sound. Qed.
+
+(* the monitor is not trivially true: with limit 150, entries 1 and 2 of true size 72, an insertion of a 72-byte entry that
+   leaves only the newcomer behind (both old entries gone although evicting entry 1 alone would have made room) is rejected *)
+Example C03_monitor_rejects_over_eviction :
+  let mk i := {| ek := {| kid := i; ktok := i; kheap := 0 |}; ev := {| vtok := 100 + i; vtag := i; vheap := 0 |}; es := 72 |} in
+  let pre := {| ents := [mk 1; mk 2]; cur := 144; maxs := 150; tb := {| nb := 4; tombs := 0 |} |} in
+  c03_mon 72 pre (Insert {| kid := 3; ktok := 3; kheap := 0 |} {| vtok := 103; vtag := 3; vheap := 0 |})
+          {| ents := [mk 3]; cur := 72; maxs := 150; tb := {| nb := 4; tombs := 0 |} |} = false /\
+  c03_mon 72 pre (Insert {| kid := 3; ktok := 3; kheap := 0 |} {| vtok := 103; vtag := 3; vheap := 0 |})
+          {| ents := [mk 2; mk 3]; cur := 144; maxs := 150; tb := {| nb := 4; tombs := 0 |} |} = true.
+Proof. split; vm_compute; reflexivity. Qed.
+
 Print Assumptions C03_insert.
 Print Assumptions C03_exact_fit.
 Print Assumptions C03_mutate.
 Print Assumptions C03_set_max.
 Print Assumptions C03_only_when.
 Print Assumptions C03_pointer_level.
+Print Assumptions C03_monitor_sound.
